@@ -7,16 +7,27 @@ SUB = {
     M("markActivity"): P + "vC06_markActivity", M("recordProcessedMessage"): P + "vC06_noop", M("submitSupervision"): P + "vC06_submitSupervision",
     "(*" + P + "dispatcher).schedule": P + "vC06_schedule", "(*" + P + "worker).reschedule": P + "vC06_reschedule",
 }
+import importlib.util, os
+_spec = importlib.util.spec_from_file_location("c01", os.path.join(os.path.dirname(os.path.abspath(__file__)), "c01.py"))
+_c01 = importlib.util.module_from_spec(_spec)
+_spec.loader.exec_module(_c01)
+def _c01_entry(short):
+    e = dict([x for x in _c01.CHECK["entries"] if x["fn"].endswith("." + short)][0])
+    e["opts"] = dict(_c01.CHECK["opts"], **e.get("opts", {}))
+    return e
 CHECK = {
     "id": "C06",
     "packages": ["./actor"],
-    "harness": ["actor/zz_verif_c06.go"],
+    "harness": ["actor/zz_verif_c06.go", "actor/zz_verif_c01.go"],
     "replace": [{"file": "actor/pools.go", "old": "const contextPoolSize = 8192", "new": "const contextPoolSize = 2"}],
     "entries": [
         {"fn": P + "vC06_twoShutdowns", "replay": "model-only"},
         {"fn": P + "vC06_passivateVsShutdown", "replay": "model-only"},
         {"fn": P + "vC06_poisonPill", "replay": "model-only"},
         {"fn": P + "vC06_shutdownVsTurn", "replay": "model-only"},
+        # restart path: PreStart of the new incarnation (init) vs a Receive still in progress on a worker (the C01 restart scenarios)
+        _c01_entry("vC01_restart"),
+        _c01_entry("vC01_restartSuspended"),
     ],
     "opts": {"rounds": 3, "unwind": 4, "unwind_mode": "assume", "feasibility": False, "substitute": SUB,
              "loop_bounds": {M("setState"): 3, M("compareAndSwapState"): 3}},
